@@ -340,6 +340,13 @@ class IncomingMessageHandler(IncomingMessageHandlerBase):
         except (ValueError, OverflowError) as err:
             raise InvalidMessageError(err, message) from err
 
+        if not 0 <= battery_level <= 100:  # noqa: PLR2004
+            # The node schema only accepts a battery level in percent.
+            raise InvalidMessageError(
+                ValueError("Battery level must be between 0 and 100."),
+                message,
+            )
+
         gateway.nodes[message.node_id].battery_level = battery_level
         return message
 
